@@ -237,3 +237,233 @@ package options
 //@   ensures #applies typeis(o, "*channel.Channel") ==> result == nil && as(o, "*channel.Channel").UsernamePattern == p
 //@   ensures #ignored !typeis(o, "*channel.Channel") ==> result == util.ErrIgnoredOption
 
+
+// ---- C19: definitional names of the closures the option constructors return ---------------------------------
+// opt_options_WithX(args) denotes the closure WithX$1 with its captured variables holding args; the structural
+// obligation `defines` checks that the constructor does nothing but build that closure over its parameters.
+
+//@ spec opt_options_WithAuthBypass() ref
+//@ func WithAuthBypass [C19]
+//@   modifies alloc()
+//@   defines result == opt_options_WithAuthBypass()
+
+//@ spec opt_options_WithAuthNoStrictKey() ref
+//@ func WithAuthNoStrictKey [C19]
+//@   modifies alloc()
+//@   defines result == opt_options_WithAuthNoStrictKey()
+
+//@ spec opt_options_WithAuthPassphrase(s string) ref
+//@ func WithAuthPassphrase [C19]
+//@   modifies alloc()
+//@   defines result == opt_options_WithAuthPassphrase(s)
+
+//@ spec opt_options_WithAuthPassword(s string) ref
+//@ func WithAuthPassword [C19]
+//@   modifies alloc()
+//@   defines result == opt_options_WithAuthPassword(s)
+
+//@ spec opt_options_WithAuthPrivateKey(ks string, ps string) ref
+//@ func WithAuthPrivateKey [C19]
+//@   modifies alloc()
+//@   defines result == opt_options_WithAuthPrivateKey(ks, ps)
+
+//@ spec opt_options_WithAuthSecondary(s string) ref
+//@ func WithAuthSecondary [C19]
+//@   modifies alloc()
+//@   defines result == opt_options_WithAuthSecondary(s)
+
+//@ spec opt_options_WithAuthUsername(s string) ref
+//@ func WithAuthUsername [C19]
+//@   modifies alloc()
+//@   defines result == opt_options_WithAuthUsername(s)
+
+//@ spec opt_options_WithChannelLog(w ref) ref
+//@ func WithChannelLog [C19]
+//@   modifies alloc()
+//@   defines result == opt_options_WithChannelLog(w)
+
+//@ spec opt_options_WithCustomTransport(i ref) ref
+//@ func WithCustomTransport [C19]
+//@   modifies alloc()
+//@   defines result == opt_options_WithCustomTransport(i)
+
+//@ spec opt_options_WithDefaultDesiredPriv(s string) ref
+//@ func WithDefaultDesiredPriv [C19]
+//@   modifies alloc()
+//@   defines result == opt_options_WithDefaultDesiredPriv(s)
+
+//@ spec opt_options_WithDefaultLogger() ref
+//@ func WithDefaultLogger [C19]
+//@   modifies alloc()
+//@   defines result == opt_options_WithDefaultLogger()
+
+//@ spec opt_options_WithFailedWhenContains(fw []string) ref
+//@ func WithFailedWhenContains [C19]
+//@   modifies alloc()
+//@   defines result == opt_options_WithFailedWhenContains(fw)
+
+//@ spec opt_options_WithFileTransportFile(s string) ref
+//@ func WithFileTransportFile [C19]
+//@   modifies alloc()
+//@   defines result == opt_options_WithFileTransportFile(s)
+
+//@ spec opt_options_WithLogger(l ref) ref
+//@ func WithLogger [C19]
+//@   modifies alloc()
+//@   defines result == opt_options_WithLogger(l)
+
+//@ spec opt_options_WithNetconfExcludeHeader() ref
+//@ func WithNetconfExcludeHeader [C19]
+//@   modifies alloc()
+//@   defines result == opt_options_WithNetconfExcludeHeader()
+
+//@ spec opt_options_WithNetconfForceSelfClosingTags() ref
+//@ func WithNetconfForceSelfClosingTags [C19]
+//@   modifies alloc()
+//@   defines result == opt_options_WithNetconfForceSelfClosingTags()
+
+//@ spec opt_options_WithNetconfPreferredVersion(s string) ref
+//@ func WithNetconfPreferredVersion [C19]
+//@   modifies alloc()
+//@   defines result == opt_options_WithNetconfPreferredVersion(s)
+
+//@ spec opt_options_WithNetworkOnClose(f ref) ref
+//@ func WithNetworkOnClose [C19]
+//@   modifies alloc()
+//@   defines result == opt_options_WithNetworkOnClose(f)
+
+//@ spec opt_options_WithNetworkOnOpen(f ref) ref
+//@ func WithNetworkOnOpen [C19]
+//@   modifies alloc()
+//@   defines result == opt_options_WithNetworkOnOpen(f)
+
+//@ spec opt_options_WithOnClose(f ref) ref
+//@ func WithOnClose [C19]
+//@   modifies alloc()
+//@   defines result == opt_options_WithOnClose(f)
+
+//@ spec opt_options_WithOnOpen(f ref) ref
+//@ func WithOnOpen [C19]
+//@   modifies alloc()
+//@   defines result == opt_options_WithOnOpen(f)
+
+//@ spec opt_options_WithPassphrasePattern(p ref) ref
+//@ func WithPassphrasePattern [C19]
+//@   modifies alloc()
+//@   defines result == opt_options_WithPassphrasePattern(p)
+
+//@ spec opt_options_WithPasswordPattern(p ref) ref
+//@ func WithPasswordPattern [C19]
+//@   modifies alloc()
+//@   defines result == opt_options_WithPasswordPattern(p)
+
+//@ spec opt_options_WithPort(i int) ref
+//@ func WithPort [C19]
+//@   modifies alloc()
+//@   defines result == opt_options_WithPort(i)
+
+//@ spec opt_options_WithPrivilegeLevels(privilegeLevels ref) ref
+//@ func WithPrivilegeLevels [C19]
+//@   modifies alloc()
+//@   defines result == opt_options_WithPrivilegeLevels(privilegeLevels)
+
+//@ spec opt_options_WithPromptPattern(p ref) ref
+//@ func WithPromptPattern [C19]
+//@   modifies alloc()
+//@   defines result == opt_options_WithPromptPattern(p)
+
+//@ spec opt_options_WithPromptSearchDepth(i int) ref
+//@ func WithPromptSearchDepth [C19]
+//@   modifies alloc()
+//@   defines result == opt_options_WithPromptSearchDepth(i)
+
+//@ spec opt_options_WithReadDelay(t int) ref
+//@ func WithReadDelay [C19]
+//@   modifies alloc()
+//@   defines result == opt_options_WithReadDelay(t)
+
+//@ spec opt_options_WithReturnChar(s string) ref
+//@ func WithReturnChar [C19]
+//@   modifies alloc()
+//@   defines result == opt_options_WithReturnChar(s)
+
+//@ spec opt_options_WithSSHConfigFile(s string) ref
+//@ func WithSSHConfigFile [C19]
+//@   modifies alloc()
+//@   defines result == opt_options_WithSSHConfigFile(s)
+
+//@ spec opt_options_WithSSHConfigFileSystem() ref
+//@ func WithSSHConfigFileSystem [C19]
+//@   modifies alloc()
+//@   defines result == opt_options_WithSSHConfigFileSystem()
+
+//@ spec opt_options_WithSSHKnownHostsFile(s string) ref
+//@ func WithSSHKnownHostsFile [C19]
+//@   modifies alloc()
+//@   defines result == opt_options_WithSSHKnownHostsFile(s)
+
+//@ spec opt_options_WithSSHKnownHostsFileSystem() ref
+//@ func WithSSHKnownHostsFileSystem [C19]
+//@   modifies alloc()
+//@   defines result == opt_options_WithSSHKnownHostsFileSystem()
+
+//@ spec opt_options_WithStandardTransportExtraCiphers(l []string) ref
+//@ func WithStandardTransportExtraCiphers [C19]
+//@   modifies alloc()
+//@   defines result == opt_options_WithStandardTransportExtraCiphers(l)
+
+//@ spec opt_options_WithStandardTransportExtraKexs(l []string) ref
+//@ func WithStandardTransportExtraKexs [C19]
+//@   modifies alloc()
+//@   defines result == opt_options_WithStandardTransportExtraKexs(l)
+
+//@ spec opt_options_WithSystemTransportOpenArgs(l []string) ref
+//@ func WithSystemTransportOpenArgs [C19]
+//@   modifies alloc()
+//@   defines result == opt_options_WithSystemTransportOpenArgs(l)
+
+//@ spec opt_options_WithSystemTransportOpenArgsOverride(l []string) ref
+//@ func WithSystemTransportOpenArgsOverride [C19]
+//@   modifies alloc()
+//@   defines result == opt_options_WithSystemTransportOpenArgsOverride(l)
+
+//@ spec opt_options_WithSystemTransportOpenBin(s string) ref
+//@ func WithSystemTransportOpenBin [C19]
+//@   modifies alloc()
+//@   defines result == opt_options_WithSystemTransportOpenBin(s)
+
+//@ spec opt_options_WithTermHeight(i int) ref
+//@ func WithTermHeight [C19]
+//@   modifies alloc()
+//@   defines result == opt_options_WithTermHeight(i)
+
+//@ spec opt_options_WithTermWidth(i int) ref
+//@ func WithTermWidth [C19]
+//@   modifies alloc()
+//@   defines result == opt_options_WithTermWidth(i)
+
+//@ spec opt_options_WithTimeoutOps(t int) ref
+//@ func WithTimeoutOps [C19]
+//@   modifies alloc()
+//@   defines result == opt_options_WithTimeoutOps(t)
+
+//@ spec opt_options_WithTimeoutSocket(t int) ref
+//@ func WithTimeoutSocket [C19]
+//@   modifies alloc()
+//@   defines result == opt_options_WithTimeoutSocket(t)
+
+//@ spec opt_options_WithTransportReadSize(i int) ref
+//@ func WithTransportReadSize [C19]
+//@   modifies alloc()
+//@   defines result == opt_options_WithTransportReadSize(i)
+
+//@ spec opt_options_WithTransportType(transportType string) ref
+//@ func WithTransportType [C19]
+//@   modifies alloc()
+//@   defines result == opt_options_WithTransportType(transportType)
+
+//@ spec opt_options_WithUsernamePattern(p ref) ref
+//@ func WithUsernamePattern [C19]
+//@   modifies alloc()
+//@   defines result == opt_options_WithUsernamePattern(p)
+
